@@ -1345,6 +1345,12 @@ class Ev:
                 return
             if not isinstance(o, Obj):
                 raise AnalysisError("attribute store on %r at line %d" % (o, target.lineno))
+            if o.cls is not None and not isinstance(o, Lenient):
+                sowner, sfn = self.repo.find_method(o.cls, "__setattr__")
+                if sfn is not None:
+                    # a class that defines __setattr__ receives every attribute assignment
+                    self.call_fn(FuncV(sfn, self_val=o, cls=sowner, mod=sowner.mod), [Str.lit(target.attr), v], {}, target)
+                    return
             if o.cls is not None:
                 owner, p = self.repo.find_prop(o.cls, target.attr)
                 if p and p.get("set") is not None:
@@ -1823,7 +1829,13 @@ class Ev:
             for c in self.repo.mro(cur)[1:]:
                 if f.attr in c.methods:
                     return self.apply(self.bind(c.methods[f.attr], c, slf if isinstance(slf, Obj) else None, via_class=slf if isinstance(slf, ClassRef) else None), args, kwargs, e, mod)
+            if f.attr == "__setattr__" and isinstance(slf, Obj) and len(args) == 2 and isinstance(args[0], Str) and args[0].is_lit():
+                slf.fields[args[0].text()] = args[1]  # object.__setattr__: the plain store
+                return NONE
             raise AnalysisError("super().%s not found at line %d" % (f.attr, e.lineno))
+        if isinstance(f, ast.Attribute) and isinstance(f.value, ast.Name) and f.value.id == "object" and f.attr == "__setattr__" and len(args) == 3 and isinstance(args[0], Obj) and isinstance(args[1], Str) and args[1].is_lit() and "object" not in env:
+            args[0].fields[args[1].text()] = args[2]
+            return NONE
         if isinstance(f, ast.Attribute):
             recv = self.ev(f.value, env, mod)
             target = self.getattr(recv, f.attr, f, mod)
@@ -2065,6 +2077,11 @@ class Ev:
             return Obj(args[0].cls, {}, closed=True)
         if name == "setattr" and len(args) == 3 and isinstance(args[0], Obj) and isinstance(args[1], Str) and args[1].is_lit():
             o, a = args[0], args[1].text()
+            if o.cls is not None and not isinstance(o, Lenient):
+                sowner, sfn = self.repo.find_method(o.cls, "__setattr__")
+                if sfn is not None:
+                    self.call_fn(FuncV(sfn, self_val=o, cls=sowner, mod=sowner.mod), [args[1], args[2]], {}, e)
+                    return NONE
             if o.cls is not None:
                 owner, pr = self.repo.find_prop(o.cls, a)
                 if pr and pr.get("set") is not None:
